@@ -11,8 +11,11 @@ B (C02)  `fourPoint_eq_spec_chunked`, `threePoint_eq_spec_chunked`, `fkm_eq_spec
 C (C03)  `fourPoint_insert_nonreversal`, `threePoint_insert_nonreversal`, `fkm_insert_nonreversal`
          (and `_chunked` forms): inserting a sample weakly between its neighbours changes nothing
          but the reported indices, which move by the explicit map `bump (insPos …)`.
+D (C03)  `findTurns_eq_numpy`: the scan `findTurns` equals the literal transcription of the numpy
+         formulation of `find_turns` (`findTurnsNumpy`) on every signal.
 -/
 import Proofs.Lemmas.RainflowCor
+import Proofs.Lemmas.RainflowNumpy
 
 namespace PylifeVerif
 open Rainflow RainflowCor
@@ -125,6 +128,15 @@ theorem insert_index_map (pre post : List Int) (v y : Int) (j : Nat) :
     (j = pre.length + 1 → bumpN (insPos pre v y post) j = if v = y ∧ post ≠ [] then j else j + 1) :=
   bumpN_insPos pre post v y j
 
+/-- **The four-point closing rule looks at values only.**  Feeding two point lists with pairwise
+equal values and arbitrary indices (`R p q → p.2 = q.2`) into two stacks that correspond in the same
+way yields cycle lists and stacks that correspond point by point. -/
+theorem fpFeed_values_only (R : Pt → Pt → Prop) (hR : ∀ p q, R p q → p.2 = q.2)
+    (ps ps' st st' : List Pt) (hps : List.Forall₂ R ps ps') (hst : List.Forall₂ R st st') :
+    List.Forall₂ (fun c c' => R c.1 c'.1 ∧ R c.2 c'.2) (fpFeed st ps).1 (fpFeed st' ps').1 ∧
+      List.Forall₂ R (fpFeed st ps).2 (fpFeed st' ps').2 :=
+  fpFeed_rel R hR ps ps' hps st st' hst
+
 /-- **Refinement insensitivity of the four-point detector.**  For `s = pre ++ x :: y :: post` and
 `s' = pre ++ x :: v :: y :: post` with `v` weakly between `x` and `y`, and for arbitrary chunkings
 `cs` of `s` and `cs'` of `s'`: the cycles (in order) and the residual points (incl. last sample) of
@@ -200,9 +212,27 @@ theorem fkm_insert_nonreversal (pre post : List Int) (x y v : Int)
       (fkmRun [pre ++ x :: v :: y :: post]).maxTurn = (fkmRun [pre ++ x :: y :: post]).maxTurn :=
   fkm_insert_nonreversal_chunked pre post x y v hv _ _ (by simp) (by simp) (by simp) (by simp)
 
+/-! ### D: the numpy formulation of `find_turns` -/
+
+/-- **The scan equals the numpy formulation.**  `findTurnsNumpy` is the literal transcription of
+`find_turns` (differences, peak turns by the sign of the product of neighbouring differences, plateau
+turns by matching the start and end edges of the zero-difference pattern with the `cut_ends` /
+`cut_starts` rules); it reports exactly the points of the scan `findTurns`, on every signal. -/
+theorem findTurns_eq_numpy (s : List Int) : findTurns s = findTurnsNumpy s := by
+  rw [findTurns_eq_revList, Numpy.findTurnsNumpy_eq_revList]
+
+/-- the numpy formulation computes the declarative reversals -/
+theorem findTurnsNumpy_eq_reversals (s : List Int) : findTurnsNumpy s = Spec.reversals s := by
+  rw [← findTurns_eq_numpy, findTurns_eq_reversals]
+
 end C03
 
 /-! ## Non-vacuity / sanity -/
+
+-- D: leading plateau (`cut_ends`), plateau turn, plateau without turn, peak turns, trailing plateau
+-- (`cut_starts`)
+example : findTurnsNumpy [1, 1, 3, 3, 2, 2, 0, 4, 1, 1] = [(2, 3), (6, 0), (7, 4)] := by decide +kernel
+example : findTurns [1, 1, 3, 3, 2, 2, 0, 4, 1, 1] = [(2, 3), (6, 0), (7, 4)] := by decide
 
 -- A: the cycle end point (4, 2) lies in chunk 1 at position 1, the last sample (7, 4) in chunk 2 at 2
 example := C01.recorder_chunk_local_index_addresses_sample [[0, 3, 3], [1, 2], [2, -1, 4]]
@@ -245,6 +275,7 @@ open PylifeVerif
 #print axioms C02.fkm_partition_chunked
 #print axioms C03.findTurns_insert_nonreversal_index
 #print axioms C03.insert_index_map
+#print axioms C03.fpFeed_values_only
 #print axioms C03.fourPoint_insert_nonreversal_chunked
 #print axioms C03.fourPoint_insert_nonreversal
 #print axioms C03.fourPoint_insert_nonreversal_values
@@ -252,4 +283,6 @@ open PylifeVerif
 #print axioms C03.threePoint_insert_nonreversal
 #print axioms C03.fkm_insert_nonreversal_chunked
 #print axioms C03.fkm_insert_nonreversal
+#print axioms C03.findTurns_eq_numpy
+#print axioms C03.findTurnsNumpy_eq_reversals
 end AxiomCheck
